@@ -268,7 +268,8 @@ def build() -> dict:
                 "engine": "hv",
                 "level_claimed": {"category": "other", "text": c["text"], "design_ref": c["design"]},
                 "level_note": c["note"],
-                "technique": c["technique"],
+                "technique": c["technique"] + "; rules are stated over canonical function bodies and per-path summaries (hv/canon.py, hv/paths.py), so "
+                             "local names, temporaries, extracted helpers, match/isinstance, loop/comprehension and guard-clause/if-else spellings do not matter",
             })
         else:
             na.append({"property_id": pid, "reason": NOT_APPLICABLE_REASON.get(
@@ -286,7 +287,7 @@ def build() -> dict:
         "engines": [{
             "name": "hv", "path": "/verif/hv",
             "serves_properties": [c["property_id"] for c in checks],
-            "kind_free_text": "stdlib-ast static analysers (program model, statement CFG, expression normal forms, "
+            "kind_free_text": "stdlib-ast static analysers (program model, statement CFG, canonical forms, path summaries, expression normal forms, "
                               "Rust/JSON table scanners, schema-from-AST) with repository-specific rules per property",
         }],
         "checks": checks,
